@@ -38,6 +38,10 @@ pub trait Get {}
 // src/regex_cache.rs: opaque here (Rc<RefCell<SizedCache>>); only ever cloned by the functions of this unit.
 #[verifier::external_body]
 pub struct RegexCache { _p: () }
+impl RegexCache {
+    #[verifier::external_body]
+    pub fn new(size: usize) -> (r: Self) { unimplemented!() }
+}
 impl Clone for RegexCache {
     #[verifier::external_body]
     fn clone(&self) -> (r: Self) ensures r == *self { unimplemented!() }
@@ -58,6 +62,24 @@ pub open spec fn res_view(s: Seq<(Rc<String>, Option<JsonValue>)>) -> Seq<(Strin
     Seq::new(s.len(), |i: int| (*s[i].0, s[i].1))
 }
 
+
+// what `build` produces from the selected results: an object with one member per present result, in selection order
+// (a repeated title overwrites the earlier value in place — IndexMap::insert)
+pub open spec fn build_entries(res: Seq<(String, Option<JsonValue>)>) -> Seq<(String, JsonValue)>
+    decreases res.len()
+{
+    if res.len() == 0 { Seq::empty() } else {
+        let init = build_entries(res.drop_last());
+        match res.last().1 { Some(v) => im_insert(init, res.last().0, v), None => init }
+    }
+}
+
+pub open spec fn first_selected(res: Seq<(String, Option<JsonValue>)>, name: String) -> Option<JsonValue>
+    decreases res.len()
+{
+    if res.len() == 0 { None } else if res[0].0 == name { res[0].1 } else { first_selected(res.drop_first(), name) }
+}
+
 impl Context {
     // ---- ghost view: everything an expression can observe
     pub closed spec fn inp(&self) -> JsonValue { *self.input }
@@ -76,20 +98,13 @@ impl Context {
 //@@ fn ctx.input = src/processor.rs :: impl Context :: fn input
 //@@ safety C12
 //@@ ret r
-//@@ header
-    ensures **r == self.inp(), // @obl CTX.input : C12 C03
+//@@ header-from specs/ctx/input.spec
 //@@ endfn
 
 //@@ fn ctx.with_inupt = src/processor.rs :: impl Context :: fn with_inupt
 //@@ safety C12 C05
 //@@ ret r
-//@@ header
-    requires self.parents().len() < usize::MAX,
-    ensures
-        r.inp() == value, // @obl CTX.with_input.input : C12 C03
-        r.parents() =~= seq![self.inp()].add(self.parents()), // @obl CTX.with_input.push : C12
-        r.res().len() == 0, // @obl CTX.with_input.results : C12
-        r.vars() == self.vars() && r.defs() == self.defs() && r.ictx() == self.ictx() && r.cache() == self.cache(), // @obl CTX.with_input.frame : C12 C11
+//@@ header-from specs/ctx/with_inupt.spec
 //@@ loop 1 iter it
         invariant
             parent_inputs@.len() == 1 + it.index@,
@@ -100,22 +115,13 @@ impl Context {
 //@@ fn ctx.with_result = src/processor.rs :: impl Context :: fn with_result
 //@@ safety C12
 //@@ ret r
-//@@ header
-    ensures
-        r.res() =~= self.res().push((**title, result)), // @obl CTX.with_result.push : C03 C12 C10
-        r.same_inputs(self), // @obl CTX.with_result.inputs : C12
-        r.vars() == self.vars() && r.defs() == self.defs() && r.ictx() == self.ictx() && r.cache() == self.cache(), // @obl CTX.with_result.frame : C12 C11
+//@@ header-from specs/ctx/with_result.spec
 //@@ endfn
 
 //@@ fn ctx.with_variable = src/processor.rs :: impl Context :: fn with_variable
 //@@ safety C12 C05
 //@@ ret r
-//@@ header
-    requires self.vars().len() < usize::MAX,
-    ensures
-        r.vars() =~= self.vars().insert(name, value), // @obl CTX.with_variable.bind : C12
-        r.same_inputs(self), // @obl CTX.with_variable.inputs : C12
-        r.res() == self.res() && r.defs() == self.defs() && r.ictx() == self.ictx() && r.cache() == self.cache(), // @obl CTX.with_variable.frame : C12
+//@@ header-from specs/ctx/with_variable.spec
 //@@ loop 1 iter it
         invariant
             forall|j: int| 0 <= j < it.index@ ==> variables@.contains_key(*(#[trigger] it.seq()[j]).0) && variables@[*it.seq()[j].0] == *it.seq()[j].1,
@@ -127,22 +133,13 @@ impl Context {
 //@@ fn ctx.with_variables = src/processor.rs :: impl Context :: fn with_variables
 //@@ safety C12
 //@@ ret r
-//@@ header
-    ensures
-        r.vars() == variables@, // @obl CTX.with_variables.bind : C12
-        r.same_inputs(self), // @obl CTX.with_variables.inputs : C12
-        r.res() == self.res() && r.defs() == self.defs() && r.ictx() == self.ictx() && r.cache() == self.cache(), // @obl CTX.with_variables.frame : C12
+//@@ header-from specs/ctx/with_variables.spec
 //@@ endfn
 
 //@@ fn ctx.with_definition = src/processor.rs :: impl Context :: fn with_definition
 //@@ safety C12 C05
 //@@ ret r
-//@@ header
-    requires self.defs().len() < usize::MAX,
-    ensures
-        r.defs() =~= self.defs().insert(name, *definition), // @obl CTX.with_definition.bind : C12
-        r.same_inputs(self), // @obl CTX.with_definition.inputs : C12
-        r.res() == self.res() && r.vars() == self.vars() && r.ictx() == self.ictx() && r.cache() == self.cache(), // @obl CTX.with_definition.frame : C12
+//@@ header-from specs/ctx/with_definition.spec
 //@@ loop 1 iter it
         invariant
             forall|j: int| 0 <= j < it.index@ ==> definitions@.contains_key(*(#[trigger] it.seq()[j]).0) && definitions@[*it.seq()[j].0] == *it.seq()[j].1,
@@ -154,38 +151,74 @@ impl Context {
 //@@ fn ctx.with_definitions = src/processor.rs :: impl Context :: fn with_definitions
 //@@ safety C12
 //@@ ret r
-//@@ header
-    ensures
-        r.defs() == definitions@, // @obl CTX.with_definitions.bind : C12
-        r.same_inputs(self), // @obl CTX.with_definitions.inputs : C12
-        r.res() == self.res() && r.vars() == self.vars() && r.ictx() == self.ictx() && r.cache() == self.cache(), // @obl CTX.with_definitions.frame : C12
+//@@ header-from specs/ctx/with_definitions.spec
 //@@ endfn
 
 //@@ fn ctx.parent_input = src/processor.rs :: impl Context :: fn parent_input
 //@@ safety C12 C05
 //@@ ret r
-//@@ header
-    ensures
-        count == 0 ==> *r == self.inp(), // @obl CTX.parent_input.zero : C12
-        0 < count <= self.parents().len() ==> *r == self.parents()[count - 1], // @obl CTX.parent_input.nth : C12
+//@@ header-from specs/ctx/parent_input.spec
 //@@ endfn
 
 //@@ fn ctx.get_variable_value = src/processor.rs :: impl Context :: fn get_variable_value
 //@@ safety C12
 //@@ ret r
-//@@ header
-    ensures
-        r is Some <==> self.vars().contains_key(*name), // @obl CTX.get_variable.dom : C12
-        r is Some ==> *r.unwrap() == self.vars()[*name], // @obl CTX.get_variable.val : C12
+//@@ header-from specs/ctx/get_variable_value.spec
 //@@ endfn
 
 //@@ fn ctx.get_definition = src/processor.rs :: impl Context :: fn get_definition
 //@@ safety C12
 //@@ ret r
-//@@ header
-    ensures
-        r is Some <==> self.defs().contains_key(*name), // @obl CTX.get_definition.dom : C12
-        r is Some ==> *r.unwrap() == self.defs()[*name], // @obl CTX.get_definition.val : C12
+//@@ header-from specs/ctx/get_definition.spec
+//@@ endfn
+
+//@@ fn ctx.build = src/processor.rs :: impl Context :: fn build
+//@@ safety C03 C05
+//@@ ret r
+//@@ header-from specs/ctx/build.spec
+//@@ loop 1 iter it
+        invariant
+            mp.distinct(),
+            0 <= it.index@ <= self.results@.len(), it.seq().len() == self.results@.len(),
+            forall|j: int| 0 <= j < it.seq().len() ==> *(#[trigger] it.seq()[j]) == self.results@[j],
+            mp.entries() == build_entries(self.res().subrange(0, it.index@)),
+//@@ before "match value {"
+                proof { assert(self.res().subrange(0, it.index@ + 1).drop_last() =~= self.res().subrange(0, it.index@)); }
+//@@ before "JsonValue::Object(mp)"
+            proof { assert(self.res().subrange(0, self.res().len() as int) =~= self.res()); }
+//@@ endfn
+
+//@@ fn ctx.get_selected = src/processor.rs :: impl Context :: fn get_selected
+//@@ safety C12 C05
+//@@ ret r
+//@@ header-from specs/ctx/get_selected.spec
+//@@ body-start
+        proof { assert(self.res().subrange(0, self.res().len() as int) =~= self.res()); }
+//@@ loop 1 iter it
+        invariant
+            0 <= it.index@ <= self.results@.len(), it.seq().len() == self.results@.len(),
+            forall|j: int| 0 <= j < it.seq().len() ==> *(#[trigger] it.seq()[j]) == self.results@[j],
+            first_selected(self.res(), *name) == first_selected(self.res().subrange(it.index@, self.res().len() as int), *name),
+//@@ before "if &**title == name {"
+            proof {
+                let tail = self.res().subrange(it.index@, self.res().len() as int);
+                assert(tail.drop_first() =~= self.res().subrange(it.index@ + 1, self.res().len() as int));
+                assert(tail[0] == self.res()[it.index@]);
+            }
+//@@ before "None"
+        proof { assert(self.res().subrange(self.res().len() as int, self.res().len() as int).len() == 0); }
+//@@ endfn
+
+//@@ fn ctx.new_with_no_context = src/processor.rs :: impl Context :: fn new_with_no_context
+//@@ safety C09
+//@@ ret r
+//@@ header-from specs/ctx/new_with_no_context.spec
+//@@ endfn
+
+//@@ fn ctx.input_context = src/processor.rs :: impl Context :: fn input_context
+//@@ safety C17
+//@@ ret r
+//@@ header-from specs/ctx/input_context.spec
 //@@ endfn
 
 }
